@@ -756,7 +756,7 @@ def run(tier: str, seed: int, replay=None) -> int:
             if isinstance(c, dict) and "objs" in c:
                 descrs.append(c)
                 origin.append(f"corpus/{PROP}/{f.name}")
-        nmodels, per_model = (6, 60) if tier == "quick" else (24, 250)
+        nmodels, per_model = (6, 60) if tier == "quick" else (16, 150)
         for j in range(nmodels):
             procs.append((j, gdir / f"out_{j}.json", _c05.spawn_worker(PROP, seed, j, per_model, model_ok, gdir / f"out_{j}.json")))
         rng = core.Rng(seed).fork(4)
